@@ -32,10 +32,28 @@ PLUMB = re.compile(r'(Result::<.*>::(map_err|unwrap_or|unwrap_or_default|unwrap_
                    r'Try>::branch$|Try::branch$|FromResidual.*::from_residual$|Into<.*>>::into$|From<.*>>::from$)')
 
 
+def closure_prims(b, c, extra=None):
+    """primitive calls inside the closure(s) handed to an iterator predicate call c (`keys.iter().any(|k| verify(k, rec, sig))`)"""
+    out = []
+    prog = b.prog
+    for a in c.args[1:]:
+        for x in b.expr(a).walk():
+            if x.k == 'agg' and x.d == 'closure' and x.a in prog.bodies:
+                for cid in prog.family(x.a):
+                    cb = prog.bodies[cid]
+                    for cc in cb.calls():
+                        if PRIM.search(cc.callee) or (extra is not None and (extra.search(cc.callee) or extra.search(cc.declared))):
+                            out.append((cb, cc))
+    return out
+
+
 def prim_calls(b, extra=None):
     out = []
     for c in b.calls():
         if PRIM.search(c.callee) or (extra is not None and (extra.search(c.callee) or extra.search(c.declared))):
+            out.append(c)
+        elif re.search(r'iter::Iterator::(any|all|find|position)$', c.declared) and closure_prims(b, c, extra):
+            # the predicate's verdict is the primitive's verdict for some / every key: the call stands for the primitive
             out.append(c)
     return out
 
@@ -198,6 +216,15 @@ def _conjunction_over_delegates(b, bb, prims):
     return False
 
 
+def _digest_flow(b, e):
+    """does the expression compare against a value whose backward slice contains a digest finalisation?"""
+    for l in set(x.a for x in e.walk() if x.k in ('let', 'local') and isinstance(x.a, int)):
+        sl = b.backward_locals([l], limit=1500)
+        if any(c.dest and c.dest[0] in sl for c in b.calls(r'Digest>::finalize$|Digest::finalize$|Hasher::finalize$|::finalize$|Digest>::digest$')):
+            return True
+    return False
+
+
 def run(ctx):
     rel = ctx.progs['rel']
     dbg = ctx.progs['dbg']
@@ -253,7 +280,7 @@ def run(ctx):
                     'no signature made with such an identity verifies under its public key in the release build' % (m.group(1), b.root.rsplit('::', 1)[-1], srcs[0].short())) if srcs else
                    '%s::from_bytes in %s takes caller-supplied / stored key bytes' % (m.group(1), b.root.rsplit('::', 1)[-1]), entry=b.root)
     ctx.floor('KEYPAIR', 6)
-    gen = prog.body('identity::node_identity::NodeIdentity::generate')
+    gen = prog.inl('identity::node_identity::NodeIdentity::generate', keep=r'::generate_ml_dsa_keypair$|generate_keypair$|register_debug')
     kg = [c for c in gen.calls(r'::generate_ml_dsa_keypair$|MlDsaOperations>::generate_keypair$')]
     okg = False
     for bi, si, s in gen.stmts():
@@ -272,8 +299,9 @@ def run(ctx):
         ('peer_record::PeerDHTRecord::verify_signature', 'PeerDHTRecord::verify_signature'),
         ('upgrade::verifier::SignatureVerifier::verify_signature', 'SignatureVerifier::verify_signature'),
     ]
+    KEEP_PRIM = r'::(ml_dsa_verify|ml_dsa_sign)$|MlDsaOperations>::(sign|verify)$'
     for fid, name in named:
-        b = prog.body(fid)
+        b = prog.inl(fid, keep=KEEP_PRIM)
         ctx.touch(b, len(b.calls()))
         ps = prim_calls(b)
         accept_analysis(ctx, prog, b, name, ps)
@@ -284,16 +312,18 @@ def run(ctx):
                 from_input = any(1 <= l <= b.argc for l in sl)
                 ctx.ob('VERIFY-GATE', '%s:message' % name, from_input, c.where(), '%s: the verified message derives from the function\'s inputs (message / self): %s' % (name, from_input))
     # extra gates
-    gv = prog.body('security::GenericIpNodeID::<A>::verify')
+    gv = prog.inl('security::GenericIpNodeID::<A>::verify', keep=KEEP_PRIM)
     succ_conds = []
     for c in prim_calls(gv):
         succ_conds = F.dominating_conds(gv, c.bb)
     idg = any(cd.kind == 'bool' and ((not cd.truth and L.calls_decl_expr(cd.expr, 'cmp::PartialEq::ne')) or (cd.truth and L.calls_decl_expr(cd.expr, 'cmp::PartialEq::eq')))
-              and 'node_id' in cd.expr.show() and cd.expr.mentions_call(r'::compute_node_id$') is not None for cd in succ_conds)
+              and 'node_id' in cd.expr.show() and (cd.expr.mentions_call(r'::compute_node_id$') is not None or
+                                                   cd.expr.mentions_call(r'Digest>::finalize$|Digest::finalize$|blake3::Hasher::finalize$|::finalize$') is not None or
+                                                   _digest_flow(gv, cd.expr)) for cd in succ_conds)
     lng = any(L.cmp_is(cd, L.has('len(', 'signature'), 'Eq', lambda e: True) for cd in succ_conds)
     ctx.ob('VERIFY-GATE', 'GenericIpNodeID::verify:id-recomputed', idg, gv.where(), 'the signature check runs only if the recomputed node id equals the claimed one: %s' % idg)
     ctx.ob('VERIFY-GATE', 'GenericIpNodeID::verify:signature-length', lng, gv.where(), 'the signature check runs only for signatures of the exact length: %s' % lng)
-    sv = prog.body('upgrade::verifier::SignatureVerifier::verify_signature')
+    sv = prog.inl('upgrade::verifier::SignatureVerifier::verify_signature', keep=KEEP_PRIM)
     conds = []
     for c in prim_calls(sv):
         conds = F.dominating_conds(sv, c.bb)
@@ -399,24 +429,69 @@ def run(ctx):
                     e = body.expr(a)
                     if any(x.k in ('param', 'let', 'local') and x.b in ('record', '_record') for x in e.walk()):
                         recflow = True
+                for cb_, cc_ in (closure_prims(body, c, DELEG) if re.search(r'iter::Iterator::', c.declared) else []):
+                    for a in cc_.args[1:]:
+                        e = cb_.expr(a)
+                        if any(x.k in ('param', 'let', 'local') and x.b in ('record', '_record') for x in e.walk()):
+                            recflow = True
             ctx.ob('SIBLINGS', 'WriteAuth:%s:record-verified' % name, recflow, body.where(),
                    ('%s::verify hands `record` to a verification primitive' % name) if recflow else
                    ('%s::verify never passes `record` to any verification primitive: its verdict cannot depend on the message (count-only / placeholder)' % name))
             accept_analysis(ctx, prog, body, 'WriteAuth:' + name, ps)
     ctx.floor('SIBLINGS', 5)
 
-    # ---- 5. cover of the address-bound id
-    for fn in ('compute_node_id', 'build_message'):
-        b = prog.body('security::GenericIpNodeID::<A>::' + fn)
-        used = set()
-        for c in b.calls():
-            for a in c.args:
-                if 'p' in a:
-                    for l in b.backward_locals([a['p'][0]], limit=300):
-                        if 1 <= l <= b.argc:
-                            used.add(b.local_name(l))
-        okc = len([u for u in used if u]) >= 4
-        ctx.ob('COVER', 'GenericIpNodeID::%s' % fn, okc, b.where(), '%s feeds all of its inputs %s into the digest / message: %s' % (fn, sorted(u for u in used if u), okc))
+    # ---- 5. cover of the address-bound id (name-free): whatever computes the id digest and builds the signed message inside
+    # `verify` (its helpers spliced in) reads the address, the public key, the salt and the timestamp
+    need = ('ip_addr', 'public_key', 'salt', 'timestamp_secs')
+    fr = L.fields_read(prog, gv, 'security::GenericIpNodeID', depth=3)
+    # which of those reach (a) a digest update, (b) the message argument of the verification primitive
+    def fields_into(calls_rx, argsel):
+        got = set()
+        for c in gv.calls(calls_rx):
+            for a in argsel(c):
+                if 'p' not in a:
+                    continue
+                sl = gv.backward_locals([a['p'][0]], limit=2500)
+                for bi_, si_, s_ in gv.stmts():
+                    if s_['d'][0] in sl or True:
+                        for o_ in F._rvalue_operands(s_['r']):
+                            if 'p' in o_ and s_['d'][0] in sl:
+                                for p_ in o_['p'][1:]:
+                                    if isinstance(p_, str) and p_.startswith('.security::GenericIpNodeID::'):
+                                        got.add(p_.rsplit('::', 1)[-1])
+                for cc in gv.calls():
+                    if cc.dest and cc.dest[0] in sl:
+                        for a2 in cc.args:
+                            if 'p' in a2:
+                                for p_ in a2['p'][1:]:
+                                    if isinstance(p_, str) and p_.startswith('.security::GenericIpNodeID::'):
+                                        got.add(p_.rsplit('::', 1)[-1])
+        return got
+    dig = set()
+    for c in gv.calls(r'Digest>::update$|Digest::update$|Update>::update$|Hasher::update$'):
+        for a in c.args[1:]:
+            e_ = gv.expr(a)
+            for x in e_.walk():
+                if x.k == 'field' and isinstance(x.b, str) and x.b.startswith('security::GenericIpNodeID::'):
+                    dig.add(x.b.rsplit('::', 1)[-1])
+            if 'p' in a:
+                for l_ in gv.backward_locals([a['p'][0]], limit=600):
+                    ee = F.Expr.of_local(gv, l_, 12)
+                    for x in ee.walk():
+                        if x.k == 'field' and isinstance(x.b, str) and x.b.startswith('security::GenericIpNodeID::'):
+                            dig.add(x.b.rsplit('::', 1)[-1])
+    msgf = set()
+    for c in prim_calls(gv):
+        if len(c.args) > 1 and 'p' in c.args[1]:
+            for l_ in gv.backward_locals([c.args[1]['p'][0]], limit=2500):
+                ee = F.Expr.of_local(gv, l_, 12)
+                for x in ee.walk():
+                    if x.k == 'field' and isinstance(x.b, str) and x.b.startswith('security::GenericIpNodeID::'):
+                        msgf.add(x.b.rsplit('::', 1)[-1])
+    for nm, got in (('compute_node_id', dig), ('build_message', msgf)):
+        okc = all(f in got for f in need)
+        ctx.ob('COVER', 'GenericIpNodeID::%s' % nm, okc, gv.where(),
+               '%s covers %s (needs address, public key, salt, timestamp): %s' % ('the id digest' if nm == 'compute_node_id' else 'the signed message', sorted(got), okc))
     # recorded only
     for fid in ('dht::skademlia::SKademlia::verify_distance_proof', 'dht::authenticated_sibling_broadcast::SiblingBroadcastValidator::verify_signature'):
         if prog.has_body(fid):
